@@ -15,7 +15,7 @@ accepts_kw = z3.Function("accepts_kw", I, S, S, B)   # target's method accepts t
 
 SORTS = {"val": Val, "int": I, "bool": B, "str": S, "seq": SeqV, "set": SetMap, "map": KwMap, "hist": Hist, "event": Event, "ref": I}
 
-BUILTIN_KIND_TAGS = ("list", "set", "frozenset", "dict", "str", "bytes", "tuple", "int", "bool", "none", "seq", "iter")
+BUILTIN_KIND_TAGS = ("list", "set", "frozenset", "anyset", "dict", "str", "bytes", "tuple", "int", "bool", "none", "seq", "iter")
 
 
 class SplitV(Value):
@@ -44,8 +44,11 @@ class Calls(Interp):
         if isinstance(obj, SV):
             kind, arg = parse_tag(obj.ty)
             if kind == "opt":
+                if not self.spec_mode and default is None:
+                    if not self.branch(obj.term != Val.none, "not None L%d" % getattr(node, "lineno", 0)):
+                        self.raise_builtin("AttributeError", node)
                 return self.get_attr(SV(obj.term, arg), attr, node, default)
-            if kind in ("list", "set", "frozenset", "dict", "str", "bytes", "tuple", "seq", "iter"):
+            if kind in ("list", "set", "frozenset", "anyset", "dict", "str", "bytes", "tuple", "seq", "iter"):
                 return BoundV(obj, ("builtin", kind), attr)
             ci = self.class_of_tag(obj.ty)
             if ci is not None:
@@ -583,7 +586,13 @@ class Calls(Interp):
         if func is not None and "self" in env and recv is None:
             recv = env["self"]
         if c.event and c.event != "property":
-            seq, kw = self.call_payload(args, kwargs, node, star, dstar)
+            if c.signature is not None and func is None and star is None and dstar is None:
+                # canonical payload: every parameter of the declared signature, positionally, defaults filled in
+                fake = ast.parse("def _f(%s): pass" % c.signature).body[0]
+                names = [a.arg for a in fake.args.args]
+                seq, kw = so.seq_of([self.to_term(env[n], node) for n in names]), so.EMPTY_KW
+            else:
+                seq, kw = self.call_payload(args, kwargs, node, star, dstar)
             env["_args"] = PSeq(seq)
             env["_kw"] = PMap(kw)
             env["_name"] = SV(so.strv(mname), "str")
@@ -596,7 +605,7 @@ class Calls(Interp):
                 self.oblige("pre", b, node, "%s.%d" % (c.target.split(":")[-1], k))
                 self.assume(b)
             old_heap = dict(self.st.heap)
-            if c.event and c.event != "property":
+            if c.event and c.event not in ("property", "normal"):
                 self.emit(self.refof(recv), mname, seq, kw)
             # havoc
             self.spec_envs.append(env)
@@ -616,6 +625,8 @@ class Calls(Interp):
             exceptional = False
             if c.exsures is not None:
                 exceptional = self.choose(2, "raises %s" % c.target.split(":")[-1]) == 1
+            if c.event == "normal" and not exceptional:
+                self.emit(self.refof(recv), mname, seq, kw)     # the call takes effect only when it returns
             self.old_stack.append(old_heap)
             try:
                 if not exceptional:
@@ -652,7 +663,7 @@ class Calls(Interp):
             return SV(Val.bytesv(so.fresh("res", S)), "bytes")
         if kind in ("seq", "iter", "tuple"):
             return SV(Val.tup(so.fresh("res", SeqV)), tag)
-        if kind in ("list", "set", "frozenset", "dict") or (kind and kind[0].isupper()):
+        if kind in ("list", "set", "frozenset", "anyset", "dict") or (kind and kind[0].isupper()):
             v = SV(Val.ref(so.fresh("res", I)), tag)
         else:
             v = SV(so.fresh("res", Val), tag)
@@ -741,7 +752,7 @@ class Calls(Interp):
             return SV(Val.intv(z3.Length(self.as_seq(v, node))), "int")
         if k in ("str", "bytes"):
             return SV(Val.intv(z3.Length(self.as_str(v))), "int")
-        if k in ("set", "frozenset", "PSet"):
+        if k in ("set", "frozenset", "anyset", "PSet"):
             return SV(Val.intv(set_card(self.as_setmap(v, node))), "int")
         if k in ("dict", "PMap"):
             return SV(Val.intv(z3.Length(so.dict_order(self.as_map(v, node)))), "int")
@@ -821,7 +832,7 @@ class Calls(Interp):
 
     def setmap_from_iterable(self, v, node):
         k = self.kind_of(v)
-        if k in ("set", "frozenset", "PSet", "TupV"):
+        if k in ("set", "frozenset", "anyset", "PSet", "TupV"):
             return self.as_setmap(v, node)
         if k in ("list", "tuple", "PSeq", "seq", "iter"):
             return seq_to_set(self.as_seq(v, node))
@@ -836,7 +847,7 @@ class Calls(Interp):
         if isinstance(v, (ItemsV,)):
             self.unsupported(node, "list(items view)")
         k = self.kind_of(v)
-        if k in ("set", "frozenset"):
+        if k in ("set", "frozenset", "anyset"):
             seq, et = self.iter_seq(v, node)
         else:
             seq, et = self.as_seq(v, node), self.elem_tag(v)
@@ -963,7 +974,7 @@ class Calls(Interp):
 
     # ---- builtin methods ---------------------------------------------------
     def builtin_method(self, kind, name, recv, args, kwargs, node):
-        m = getattr(self, "bm_%s_%s" % (kind if kind != "frozenset" else "set", name), None)
+        m = getattr(self, "bm_%s_%s" % (kind if kind not in ("frozenset", "anyset") else "set", name), None)
         if m is None:
             self.unsupported(node, "method %s.%s" % (kind, name))
         return m(recv, args, kwargs, node)
@@ -1025,7 +1036,7 @@ class Calls(Interp):
         kind = parse_tag(recv.ty)[0]
         if kind == "frozenset":
             self.raise_builtin("AttributeError", node)
-        if kind == "opt" or kind is None:
+        if kind in ("opt", "anyset") or kind is None:
             r = self.refof(recv)
             if not self.branch(so.typeof(r) != self.cids.cid("frozenset"), "is mutable set"):
                 self.raise_builtin("AttributeError", node)
@@ -1082,7 +1093,9 @@ class Calls(Interp):
                     if kk.strip() == k:
                         return vv.strip()
             return None
-        if "," in arg:
+        if "=>" in arg:
+            return arg.split("=>", 1)[1].strip()
+        if "," in arg and not arg.startswith("("):
             return arg.split(",", 1)[1].strip()
         return arg
 
@@ -1186,7 +1199,9 @@ class Calls(Interp):
             self.assume_dict_order(keys, m)
             arg = parse_tag(it.dictval.ty)[1] if isinstance(it.dictval, SV) else None
             kt = vt = None
-            if arg and "," in arg and not arg.startswith("{"):
+            if arg and "=>" in arg:
+                kt, vt = [x.strip() for x in arg.split("=>", 1)]
+            elif arg and "," in arg and not arg.startswith("{"):
                 kt, vt = [x.strip() for x in arg.split(",", 1)]
             elif arg and not arg.startswith("{"):
                 vt = arg
@@ -1267,7 +1282,7 @@ class Calls(Interp):
             rng = z3.And(it.lo <= j, j < it.hi)
             elem = SV(Val.intv(j), "int")
             qv = [j]
-        elif isinstance(it, (PSet,)) or (isinstance(it, SV) and parse_tag(it.ty)[0] in ("set", "frozenset")):
+        elif isinstance(it, (PSet,)) or (isinstance(it, SV) and parse_tag(it.ty)[0] in ("set", "frozenset", "anyset")):
             x = z3.Const(qid, Val)
             rng = self.as_setmap(it, node)[x]
             elem = SV(x, self.elem_tag(it))
@@ -1464,7 +1479,10 @@ class Calls(Interp):
         return PSet(self.comp("$set")[self.refof(args[0], node)])
 
     def sp_dictof(self, args, kwargs, node):
-        return PMap(self.comp("$dict")[self.refof(args[0], node)])
+        vt = self.dict_value_tag(args[0]) if isinstance(args[0], SV) else None
+        if vt is not None and vt.startswith("{"):
+            vt = None
+        return PMap(self.comp("$dict")[self.refof(args[0], node)], vt)
 
     def sp_mapof(self, args, kwargs, node):
         return PMap(self.as_map(args[0], node))
@@ -1532,6 +1550,22 @@ class Calls(Interp):
 
     def sp_store(self, args, kwargs, node):
         return PMap(z3.Store(self.as_map(args[0], node), self.to_term(args[1], node), self.to_term(args[2], node)))
+
+    def sp_asstr(self, args, kwargs, node):
+        return SV(self.to_term(args[0], node), "str")
+
+    def sp_astype(self, args, kwargs, node):
+        return SV(self.to_term(args[0], node), self.const_str(args[1], node))
+
+    def sp_hstore(self, args, kwargs, node):
+        """HIST array with one object's history replaced"""
+        return PRaw(z3.Store(args[0].t, self.refof(args[1], node), args[2].h))
+
+    def sp_first_segment(self, args, kwargs, node):
+        s_ = self.as_str(args[0], node)
+        sep = self.as_str(args[1], node) if len(args) > 1 else z3.StringVal("/")
+        pos = z3.IndexOf(s_, sep, 0)
+        return SV(Val.strv(z3.If(pos < 0, s_, z3.SubString(s_, 0, pos))), "str")
 
     def sp_fieldof(self, args, kwargs, node):
         return SV(self.get_field(self.refof(args[0], node), self.const_str(args[1], node)), None)
